@@ -36,6 +36,12 @@ def run(cases, tag="Optc", timeout=300):
         t += "Eval vm_compute in [" + "; ".join(
             f"opt_matches [{'; '.join(str(x) for x in c['temps'])}]%positive b{k} a{k}" for k, c in enumerate(batch)) + "].\n"
         t += "Eval vm_compute in (0%nat, [" + "; ".join(f"opt_ok b{k}" for k in range(len(batch))) + "]).\n"
+        # Opt.desugar against the exporter's desugaring of the same list (statement lists flattened one level on both sides)
+        t += "Definition flat1 (l : list stmt) : list stmt := flat_map (fun s => match s with SList x => x | _ => [s] end) l.\n"
+        ds = [k for k, c in enumerate(batch) if "after_body" in c]
+        for k in ds:
+            t += f"Definition d{k} : list stmt :=\n{ffx.coq_body(batch[k]['after_body'])}.\n"
+        t += "Eval vm_compute in (1%nat, [" + "; ".join(f"list_eqb stmt_eqb (flat1 (desugar a{k})) (flat1 d{k})" for k in ds) + "]).\n"
         open(path, "w").write(t)
         files[path] = list(meta)
         batch.clear()
@@ -74,6 +80,11 @@ def run(cases, tag="Optc", timeout=300):
         rc, so, se = out[path]
         mm = re.search(r"=\s*\[(.*?)\]\s*:\s*list bool", so, re.S) if rc == 0 else None
         m2 = re.search(r"=\s*\(0%nat,\s*\[(.*?)\]\)", so, re.S) if rc == 0 else None
+        m3 = re.search(r"=\s*\(1%nat,\s*\[(.*?)\]\)", so, re.S) if rc == 0 else None
+        if m3 and m3.group(1).strip():
+            dk = [x.strip() == "true" for x in m3.group(1).split(";")]
+            info["desugar_compared"] = info.get("desugar_compared", 0) + len(dk)
+            info["desugar_equal"] = info.get("desugar_equal", 0) + sum(dk)
         if m2:
             oks = [x.strip() == "true" for x in m2.group(1).split(";")]
             info["side_condition_true"] = info.get("side_condition_true", 0) + sum(oks)
